@@ -19,6 +19,7 @@ use vh_hist::driver::fresh;
 use ironcalc_base::expressions::parser::Node;
 use ironcalc_base::language::get_language;
 use ironcalc_base::locale::get_locale;
+use ironcalc_base::types::{Cell, Workbook};
 use ironcalc_base::{Model, UserModel};
 use serde_json::json;
 use std::collections::{BTreeMap, HashSet};
@@ -101,16 +102,55 @@ fn classify(a: &Node, b: &Node) -> String {
     "reparse_mismatch".into()
 }
 
-/// `==` on `Workbook`, with the bit-exact snapshot (values, views, styles) standing in when the
-/// workbook holds a NaN (f64 `==` is not reflexive there)
-fn wb_equal(a: &Model, b2: &Model) -> (bool, bool) {
-    if a.workbook == b2.workbook { return (true, false); }
-    #[allow(clippy::eq_op)]
-    let reflexive = a.workbook == a.workbook;
-    if reflexive { return (false, false); }
-    let full = SnapOpts { values: true, views: true, styles: true };
-    (snapshot(a, &full) == snapshot(b2, &full), true)
+/// canonical text of a workbook: Debug of every component, maps in key order (f64 Debug is
+/// exact and prints NaN as NaN, so this is a bit-level comparison that is reflexive on NaN).
+/// `values = false` leaves out the computed values (what `view` does not show).
+fn wb_canon(w: &Workbook, values: bool) -> Vec<String> {
+    let mut out = vec![];
+    out.push(format!("shared_strings {:?}", w.shared_strings));
+    out.push(format!("defined_names {:?}", w.defined_names));
+    out.push(format!("styles {:?}", w.styles));
+    out.push(format!("name {:?} settings {:?} metadata {:?}", w.name, w.settings, w.metadata));
+    out.push(format!("theme {:?}", w.theme));
+    let mut t: Vec<String> = w.tables.iter().map(|(k, v)| format!("table {k:?} {v:?}")).collect(); t.sort(); out.extend(t);
+    let mut t: Vec<String> = w.views.iter().map(|(k, v)| format!("view {k:?} {v:?}")).collect(); t.sort(); out.extend(t);
+    for (i, p) in w.worksheets.iter().enumerate() {
+        out.push(format!("s{i} dim {:?} name {:?} id {} state {:?} color {:?} merge {:?} comments {:?} frozen {} {} grid {}", p.dimension, p.name, p.sheet_id, p.state, p.color, p.merge_cells, p.comments, p.frozen_rows, p.frozen_columns, p.show_grid_lines));
+        out.push(format!("s{i} cols {:?}", p.cols));
+        out.push(format!("s{i} rows {:?}", p.rows));
+        out.push(format!("s{i} shared_formulas {:?}", p.shared_formulas));
+        out.push(format!("s{i} cf {:?}", p.conditional_formatting));
+        let mut t: Vec<String> = p.views.iter().map(|(k, v)| format!("s{i} view {k:?} {v:?}")).collect(); t.sort(); out.extend(t);
+        let mut t: Vec<String> = p.links.iter().map(|(k, v)| format!("s{i} link {k:?} {v:?}")).collect(); t.sort(); out.extend(t);
+        let mut cells: Vec<(i32, i32, String)> = vec![];
+        for (r, row) in &p.sheet_data { for (c, cell) in row {
+            let txt = if values { format!("{cell:?}") } else {
+                match cell {
+                    Cell::CellFormula { f, s, .. } => format!("formula f={f} s={s}"),
+                    Cell::ArrayFormula { f, s, kind, .. } => format!("array f={f} s={s} {kind:?}"),
+                    Cell::SpillCell { s, .. } => format!("spill-or-empty s={s}"),
+                    Cell::EmptyCell { s } => format!("spill-or-empty s={s}"),
+                    other => format!("{other:?}"),
+                }
+            };
+            cells.push((*r, *c, txt));
+        } }
+        cells.sort();
+        for (r, c, t) in cells { out.push(format!("s{i} R{r}C{c} {t}")); }
+    }
+    out
 }
+fn wb_same(a: &Workbook, b2: &Workbook, values: bool) -> bool { (values && a == b2) || wb_canon(a, values) == wb_canon(b2, values) }
+fn wb_diff(a: &Workbook, b2: &Workbook) -> String {
+    let (x, y) = (wb_canon(a, true), wb_canon(b2, true));
+    let sx: HashSet<&String> = x.iter().collect();
+    let sy: HashSet<&String> = y.iter().collect();
+    let mut out: Vec<String> = vec![];
+    for l in x.iter().filter(|l| !sy.contains(l)).take(3) { out.push(format!("- {}", l.chars().take(200).collect::<String>())); }
+    for l in y.iter().filter(|l| !sx.contains(l)).take(3) { out.push(format!("+ {}", l.chars().take(200).collect::<String>())); }
+    out.join(" | ")
+}
+fn holds_spill_error(w: &Workbook) -> bool { wb_canon(w, true).iter().any(|l| l.contains("ei: SPILL") || l.contains("Error(SPILL)")) }
 
 fn has_volatile(m: &Model) -> bool {
     m.workbook.worksheets.iter().any(|ws| ws.shared_formulas.iter().any(|f| { let u = f.to_uppercase(); VOLATILE.iter().any(|v| u.contains(&format!("{v}("))) }))
@@ -124,17 +164,40 @@ impl Run {
         um.evaluate();
         let bytes = um.to_bytes();
         self.or.checked += 1;
+        // (1) the codec law, on the codec itself: the decoded workbook is the encoded one
+        let decoded: Workbook = match bitcode::decode(&bytes) {
+            Ok(w) => w,
+            Err(e) => { self.or.fail("codec_decode_fails", replay.clone(), format!("bitcode::decode(bitcode::encode(workbook)) = Err({e})")); return false; }
+        };
+        if !wb_same(&decoded, &um.get_model().workbook, true) {
+            self.or.fail("codec_workbook_differs", replay.clone(), format!("decode(encode(workbook)) != workbook: {}", wb_diff(&um.get_model().workbook, &decoded)));
+            return false;
+        }
+        #[allow(clippy::eq_op)]
+        if decoded != decoded { *self.dist.entry("workbook_holds_nan".to_string()).or_insert(0) += 1; }
         let loaded = catch_unwind(AssertUnwindSafe(|| Model::from_bytes(&bytes, "en")));
         let mut m2 = match loaded {
             Ok(Ok(m)) => m,
             Ok(Err(e)) => { self.or.fail("load_fails", replay.clone(), format!("from_bytes(to_bytes) = Err({e})")); return false; }
             Err(_) => { self.or.fail("load_panics", replay.clone(), "from_bytes(to_bytes) panics".into()); return false; }
         };
-        // (1) the codec law: the decoded workbook is the encoded one
-        let (eq, nan) = wb_equal(um.get_model(), &m2);
-        if nan { *self.dist.entry("workbook_holds_nan".to_string()).or_insert(0) += 1; }
-        if !eq {
-            self.or.fail("codec_workbook_differs", replay.clone(), "decode(encode(workbook)) != workbook".into());
+        // (1b) from_workbook keeps the workbook; evaluate_conditional_formatting may rewrite values (cf_law)
+        self.or.checked += 1;
+        if !wb_same(&m2.workbook, &decoded, true) {
+            let has_cf = decoded.worksheets.iter().any(|w| !w.conditional_formatting.is_empty());
+            if !has_cf {
+                self.or.fail("from_workbook_changes_workbook", replay.clone(), format!("no conditional format, yet from_workbook changed the workbook: {}", wb_diff(&decoded, &m2.workbook)));
+                return false;
+            }
+            if !wb_same(&m2.workbook, &decoded, false) {
+                self.or.fail("cf_eval_changes_more_than_values", replay.clone(), format!("evaluate_conditional_formatting changed stored data: {}", wb_diff(&decoded, &m2.workbook)));
+                return false;
+            }
+            *self.dist.entry("cf_eval_rewrote_values".to_string()).or_insert(0) += 1;
+            // the workbook was evaluated just before saving: a rewritten value means evaluation is not a
+            // function of the inputs here — competing dynamic arrays (C07 / C31, spill ordering)
+            let class = if holds_spill_error(&decoded) || holds_spill_error(&m2.workbook) { "spill_conflict_evaluation_order" } else { "cf_eval_changes_values" };
+            self.or.fail(class, replay.clone(), format!("values after load differ from the saved ones: {}", wb_diff(&decoded, &m2.workbook)));
             return false;
         }
         let mut ok = true;
@@ -194,6 +257,10 @@ impl Run {
         if s1 != s2 {
             if !classes.is_empty() { self.snap_diffs_explained += 1; }
             else if has_volatile(&m2) { self.snap_diffs_volatile += 1; }
+            else if holds_spill_error(&m2.workbook) || holds_spill_error(&um.get_model().workbook) {
+                self.or.fail("spill_conflict_evaluation_order", replay.clone(), format!("competing dynamic arrays: {}", snap_diff(&s1, &s2, 3).join(" | ")));
+                ok = false;
+            }
             else {
                 let d = snap_diff(&s1, &s2, 4);
                 self.or.fail("snapshot_differs_after_reload", replay.clone(), format!("same workbook, same trees, other observables: {}", d.join(" | ")));
@@ -206,7 +273,7 @@ impl Run {
             Ok(m3) => {
                 let same_trees = m3.parsed_formulas.len() == m2.parsed_formulas.len()
                     && m3.parsed_formulas.iter().zip(m2.parsed_formulas.iter()).all(|(a, b2)| a.len() == b2.len() && a.iter().zip(b2.iter()).all(|(x, y)| x.0 == y.0));
-                if !wb_equal(&m2, &m3).0 || !same_trees {
+                if !wb_same(&m2.workbook, &m3.workbook, true) || !same_trees {
                     self.or.fail("second_load_differs", replay.clone(), "load(save(load(save m))) differs from load(save m)".into());
                     ok = false;
                 }
@@ -340,9 +407,13 @@ fn main() {
     // (d) user-model histories
     let (nh, len) = if a.thorough { (500u64, 60u64) } else { (50u64, 40u64) };
     let mut kinds: BTreeMap<String, u64> = BTreeMap::new();
+    let only_history: Option<u64> = if a.extra.len() >= 2 && a.extra[0] == "history" { a.extra[1].parse().ok() } else { None };
     for h in 0..nh {
         let mut um = fresh();
         let mut ops: Vec<Op> = vec![];
+        // every history has its own stream: it can be replayed alone (vh_c26 <seed> <tier> <out> history <h>)
+        let mut rng = Rng::new(a.seed.wrapping_mul(1_000_003).wrapping_add(h));
+        if let Some(only) = only_history { if h != only { continue; } }
         for _ in 0..len {
             let op = gen_op(&mut rng, &ctx_of(&um), true);
             let res = catch_unwind(AssertUnwindSafe(|| apply_op(&mut um, &op)));
